@@ -13,7 +13,7 @@ import (
 func gen(tier string, r *lib.Rand, emit func(string)) {
 	nodes, toklen, nrand := 5, 3, 3000
 	if tier == "thorough" {
-		nodes, toklen, nrand = 6, 5, 150000
+		nodes, toklen, nrand = 6, 4, 150000
 	}
 	hex := func(s string) string { return lib.Bytes([]byte(s)) }
 	script := func(ss ...ast.Statement) string { return acclib.EncScript(&ast.Chain{Statements: ss}) }
